@@ -203,6 +203,14 @@ def native_cli(run):
         expect('%s prove of unprovable parameters exits non-zero and prints nothing on stdout' % mode, rc != 0 and so.strip() == '')
         rc, so, se = sh(['prove', '--mode', mode, '--keys-file', keys + '_missing'], stdin=params)
         expect('%s prove with a missing keys file exits non-zero' % mode, rc != 0)
+        data = open(keys, 'rb').read()
+        for cut in (len(data) - 1, len(data) - 1000, len(data) - len(data) // 50):
+            tk = keys + '_cut'
+            open(tk, 'wb').write(data[:cut])
+            rc, so, se = sh(['verify', '--mode', mode, '--keys-file', tk, '--input-hash', h], stdin=proof)
+            expect('%s verify with a keys file truncated at %d of %d bytes exits non-zero' % (mode, cut, len(data)), rc != 0)
+            rc, so, se = sh(['prove', '--mode', mode, '--keys-file', tk], stdin=params)
+            expect('%s prove with a truncated keys file exits non-zero and prints nothing' % mode, rc != 0 and so.strip() == '')
         rc, so, se = sh(['verify', '--mode', mode, '--keys-file', keys, '--input-hash', h], stdin=proof.replace('0x', '0y', 1))
         expect('%s verify of a tampered proof exits non-zero' % mode, rc != 0)
     return out
